@@ -34,6 +34,7 @@ type Obligation struct {
 	Model   string
 	Script  string
 	nAsserts int // assumptions in force when the obligation was generated
+	block    *ssa.BasicBlock
 }
 
 type State struct {
@@ -88,6 +89,9 @@ type Enc struct {
 	decls    []string
 	declSeen map[string]bool
 	asserts  []string
+	assertBlk []*ssa.BasicBlock // block that produced each assumption (nil = global fact)
+	globalMode int             // >0: assumptions being added are global facts
+	anc      map[*ssa.BasicBlock]map[*ssa.BasicBlock]bool
 	obls     []*Obligation
 	notes    map[string]bool
 	usedSpecs map[string]bool
@@ -149,6 +153,7 @@ func (e *Enc) resetPass() {
 	e.decls = nil
 	e.declSeen = map[string]bool{}
 	e.asserts = nil
+	e.assertBlk = nil
 	e.obls = nil
 	e.notes = map[string]bool{}
 	e.usedSpecs = map[string]bool{}
@@ -214,6 +219,39 @@ func (e *Enc) assume(f string) {
 		return
 	}
 	e.asserts = append(e.asserts, f)
+	if e.globalMode > 0 {
+		e.assertBlk = append(e.assertBlk, nil)
+	} else {
+		e.assertBlk = append(e.assertBlk, e.curBlock)
+	}
+}
+
+// global runs f with every assumption it adds marked as a global fact (about constants declared once).
+func (e *Enc) global(f func()) {
+	e.globalMode++
+	f()
+	e.globalMode--
+}
+
+// ancestors of b in the forward-edge DAG (including b).
+func (e *Enc) ancestors(b *ssa.BasicBlock) map[*ssa.BasicBlock]bool {
+	if e.anc == nil {
+		e.anc = map[*ssa.BasicBlock]map[*ssa.BasicBlock]bool{}
+	}
+	if a, ok := e.anc[b]; ok {
+		return a
+	}
+	a := map[*ssa.BasicBlock]bool{b: true}
+	e.anc[b] = a
+	for _, p := range b.Preds {
+		if isBackEdge(p, b) {
+			continue
+		}
+		for x := range e.ancestors(p) {
+			a[x] = true
+		}
+	}
+	return a
 }
 
 func (e *Enc) note(s string) { e.notes[s] = true }
@@ -239,7 +277,7 @@ func (e *Enc) oblige(kind, detail, group, guard, goal string, p token.Pos, src s
 	if group != "" {
 		g += ":" + group
 	}
-	o := &Obligation{Fn: e.fullKey(), Kind: kind, Detail: detail, Name: name, Group: g, Guard: guard, Goal: goal, Pos: e.pos(p), Src: src, nAsserts: len(e.asserts)}
+	o := &Obligation{Fn: e.fullKey(), Kind: kind, Detail: detail, Name: name, Group: g, Guard: guard, Goal: goal, Pos: e.pos(p), Src: src, nAsserts: len(e.asserts), block: e.curBlock}
 	e.obls = append(e.obls, o)
 	return o
 }
@@ -362,6 +400,8 @@ func (e *Enc) slGet(elem types.Type, arr, off, i string) string {
 
 // keyInvariant states type invariants of a fresh (unconstrained) version of a state key.
 func (e *Enc) keyInvariant(key, name string) {
+	e.globalMode++
+	defer func() { e.globalMode-- }()
 	if t, ok := e.elemRange[key]; ok {
 		w, signed := intInfo(t)
 		if w <= 16 && !signed {
@@ -520,6 +560,8 @@ func (e *Enc) encodeOnce() (err error) {
 		}
 	}()
 	fn := e.fn
+	e.curBlock = fn.Blocks[0]
+	e.curIdx = 0
 	e.init = e.newState()
 	entry := e.init.clone()
 
@@ -811,6 +853,8 @@ func (e *Enc) enterLoop(h *ssa.BasicBlock, li *loopInfo, fpreds []*ssa.BasicBloc
 	// the loop header, in the havoc world, is reachable at an arbitrary iteration
 	r := e.freshConst(fmt.Sprintf("reach.loop.%d", h.Index), "Bool")
 	e.reach[h] = r
+	// being at the top of some iteration implies the loop was entered
+	e.assume(fmt.Sprintf("(=> %s %s)", r, entryGuard))
 	li.headerSt = st.clone()
 	e.in[h] = st
 	// 3. assume invariants
@@ -909,8 +953,10 @@ func (e *Enc) strConst(s string) string {
 	n := q(fmt.Sprintf("str:%d:%s", len(e.strConsts), s))
 	e.strConsts[s] = n
 	e.declare(n, "Str")
+	e.globalMode++
+	defer func() { e.globalMode-- }()
 	e.assume(fmt.Sprintf("(= (gs.len %s) %s)", n, e.st.idxLit(int64(len(s)))))
-	if len(s) <= 48 {
+	if len(s) <= 16 {
 		for i := 0; i < len(s); i++ {
 			e.assume(fmt.Sprintf("(= (gs.at %s %s) %s)", n, e.st.idxLit(int64(i)), e.st.byteLit(int64(s[i]))))
 		}
@@ -930,8 +976,10 @@ func (e *Enc) term(v ssa.Value) string {
 		return e.constTerm(v)
 	case *ssa.Global:
 		n := q("glob:" + v.String())
-		e.declare(n, "Ref")
-		e.assume(fmt.Sprintf("(not (= %s null))", n))
+		if !e.declSeen[n] {
+			e.declare(n, "Ref")
+			e.global(func() { e.assume(fmt.Sprintf("(not (= %s null))", n)) })
+		}
 		return n
 	case *ssa.Function:
 		n := q("fn:" + fnKey(v))
